@@ -399,6 +399,22 @@ func (m *model) judge(st *chainmc.State, now int64, op string, res *result, c *c
 	}
 	sort.Slice(levels, func(i, j int) bool { return levels[i] < levels[j] })
 	pAmple := project(res.r)
+	// the follower of the pair blocks: an embedded deployment by a signer that is not involved
+	var follower *builtOp
+	var pF proj
+	{
+		F, err := world.OpenAs(opts(), st.Img, now, world.G)
+		if err == nil {
+			if fo := buildOp(world.NewB(F), followerOp, -1); fo != nil && fo.signer != res.op.signer {
+				blk := F.Chain.VerifProposeBlockWithTxs([]byte{}, []*types.Transaction{fo.tx}).Block
+				if len(blk.Body.Transactions) == 1 && F.Add(blk) == nil {
+					if rc := F.Chain.GetReceipt(fo.tx.Hash()); rc != nil && rc.Success {
+						follower, pF = fo, project(F)
+					}
+				}
+			}
+		}
+	}
 	firstOK := int64(-1)
 	for _, g := range levels {
 		r2, e := runOp(st.Img, now, op, g)
@@ -467,7 +483,49 @@ func (m *model) judge(st *chainmc.State, now int64, op string, res *result, c *c
 		if !r2.receipt.Success && res.receipt.Success {
 			c.Count("out_of_gas_failures_checked", 1)
 		}
+		// a failed execution must not leak into a later transaction of the same block: the block
+		// {this failing tx, an unrelated successful contract tx} is compared with the block {that tx}
+		if !r2.receipt.Success && g > 0 && follower != nil {
+			if !m.pairBlock(st, now, op, g, r2, follower, pF, c) {
+				return
+			}
+		}
 	}
+}
+
+const followerOp = "V2 deploy ms 1-1"
+
+// pairBlock: block {failing tx (op under gas limit g), follower} vs block {follower}.
+func (m *model) pairBlock(st *chainmc.State, now int64, op string, g int64, failed *result, follower *builtOp, pF proj, c *chainmc.Ctx) bool {
+	P, err := world.OpenAs(opts(), st.Img, now, world.G)
+	if err != nil {
+		return true
+	}
+	replica.SetTime(now)
+	blk := P.Chain.VerifProposeBlockWithTxs([]byte{}, []*types.Transaction{failed.op.tx, follower.tx}).Block
+	if len(blk.Body.Transactions) != 2 {
+		c.Count("pair_blocks_not_buildable", 1)
+		return true
+	}
+	if err := P.Add(blk); err != nil {
+		c.Violation("pair-block-rejected:"+op2class(failed.op), fmt.Sprintf("%s gas=%d followed by %s: the proposer rejects its own block: %v", op, g, followerOp, err), nil)
+		return false
+	}
+	r1, r2 := P.Chain.GetReceipt(failed.op.tx.Hash()), P.Chain.GetReceipt(follower.tx.Hash())
+	c.Count("pair_blocks_judged", 1)
+	if r1 == nil || r2 == nil || r1.Success || !r2.Success {
+		c.Violation("pair-block-verdicts:"+op2class(failed.op), fmt.Sprintf("%s gas=%d followed by %s: verdicts changed in company (first success=%v, follower success=%v)", op, g, followerOp, r1 != nil && r1.Success, r2 != nil && r2.Success), nil)
+		return false
+	}
+	sender, coinbase := world.A(failed.op.signer), world.A(world.G)
+	for _, k := range project(P).diff(pF) {
+		if k == "acc:"+sender.Hex() || k == "acc:"+coinbase.Hex() || k == "id:"+coinbase.Hex() {
+			continue
+		}
+		c.Violation("failed-tx-leaks-into-next:"+op2class(failed.op), fmt.Sprintf("%s gas=%d failed (%v); followed by %s in the same block, %s differs from the block with the follower alone", op, g, r1.Error, followerOp, k), nil)
+		return false
+	}
+	return true
 }
 
 // beyondFee: what the sender lost in addition to the charged fee, gas cost and tips.
@@ -725,7 +783,7 @@ func main() {
 		chainmc.ReplayFile(run, m)
 		return
 	}
-	run.SetBudget(6*60e9, 60*60e9)
+	run.SetBudget(6*60e9, 25*60e9)
 	quiet(func() { // the WASM runtime prints its debug log to fd 1 while the prefixes are built
 		for i := range m.sc {
 			m.Init(i)
